@@ -23,6 +23,7 @@ from .common import Infra
 
 TOL = 1e-8          # a deviation >= TOL is a failing input
 TIGHT = 1e-10       # what we expect on the unchanged tree (reported in the evidence when exceeded)
+KNOWN_SINGLE = 'int_or_vec:single-element-array-not-unique'
 
 
 def ints(a):
@@ -127,7 +128,7 @@ def stream_merge(c, util, N, captured):
              ('corpus', 6, [[5, 0], [4, 1], [5, 4]], True), ('corpus', 3, [[0, 3]], True), ('corpus', 3, [[0], [], [1]], True), ('corpus', 0, [], True)]
     cases += [gen_merge_case(c.rng) for _ in range(N)]
     cases += [('captured', n, s, True) for n, s in captured]
-    ans = c.model(['merge|%d|%d|%s' % (n, 1 if cond else 0, sets_str(s)) for _, n, s, cond in cases])
+    ans = yield ['merge|%d|%d|%s' % (n, 1 if cond else 0, sets_str(s)) for _, n, s, cond in cases]
     ndis = 0
     for (kind, n, sets, cond), a in zip(cases, ans):
         try:
@@ -268,28 +269,47 @@ def inverse_violation(dofs, supp, ndofs):
     return None
 
 
+def first_event(ds, vs=False):
+    """what the real code does first on this request, dimension by dimension: 'hang' (never terminates), 'raise', or 'ok'"""
+    for d in ds:
+        p, n, cont, m = d[:4]
+        c_ = cont + p if cont < 0 else cont
+        if not -1 <= c_ < p: return 'raise'
+        if m is not None:
+            if not m or min(m) <= 0 or max(m) > p+1: return 'raise'
+            if len(m) == 1 and n+1 > 1: return 'hang'
+            k = len(m)
+            while k < n+1: k = 2*k-1
+            if k != n+1: return 'raise'
+    return 'ok'
+
+
 def stream_spline(c, mesh, function, poly, N):
     cases = []
     corpus = [[(2, 3, -1, None, False)], [(2, 3, -1, None, True)], [(1, 2, -1, None, False), (2, 2, 0, None, True)],
               [(3, 2, -1, [3, 1, 3], True)], [(3, 3, -1, [3, 2, 1, 3], True)], [(2, 3, -1, [3, 1, 2, 3], True)], [(2, 1, -1, None, True)],
-              [(0, 3, -1, None, False)], [(0, 2, -1, None, True)], [(2, 4, -1, [1, 3, 1], False)], [(4, 2, 1, None, False)], [(1, 1, 0, None, True)]]
+              [(0, 3, -1, None, False)], [(0, 2, -1, None, True)], [(2, 4, -1, [1, 3, 1], False)], [(4, 2, 1, None, False)], [(1, 1, 0, None, True)],
+              [(3, 2, -1, None, True)]]
     cases += [('corpus', ds) for ds in corpus]
     for _ in range(N):
         nd = c.rng.choice([1, 1, 1, 2, 2, 3] if c.tier == 'thorough' else [1, 1, 1, 2, 2])
         dims = [gen_dim(c.rng, maxn=4 if nd < 3 else 2, maxp=4 if nd == 1 else 3 if nd == 2 else 2) for _ in range(nd)]
         cases.append(('+'.join(t for t, _ in dims) if any(t.startswith(('bad', 'hang')) for t, _ in dims) else 'ok%dd' % nd, [d for _, d in dims]))
-    ans = c.model(['sbasis|' + ';'.join(dim_str(d) for d in ds) for _, ds in cases])
     ndis = 0; pending_masked = []
-    bs_requests = []   # (case index, dim index, element, points, T) for the Cox-de Boor value stream
-    for (tag, ds), a in zip(cases, ans):
-        f = a.split('|')
-        replay = dict(op='basis_spline', dims=[dict(degree=p, nelems=n, continuity=cont, knotmultiplicities=m, periodic=per) for p, n, cont, m, per in ds], model=a)
+    bs_requests = []   # queue for the Cox-de Boor value stream
+    records = []       # (replay, expectation) per case, compared with the model at the end
+    for tag, ds in cases:
+        replay = dict(op='basis_spline', dims=[dict(degree=p, nelems=n, continuity=cont, knotmultiplicities=m, periodic=per) for p, n, cont, m, per in ds])
         c.count('spline:' + (tag if tag.startswith(('ok', 'corpus')) else 'rejected-kind'))
-        if f[0] == 'err' and f[1] == 'hang':
-            c.count('spline-model:hang (real code not run: it would not terminate)'); c.case(('spline', repr(ds)), nontrivial=False)
-            continue
+        if first_event(ds) == 'hang':
+            c.count('spline:hang (real code not run: it would not terminate)'); c.case(('spline', repr(ds)), nontrivial=False)
+            records.append((ds, replay, ('hang',))); continue
         shape = [n for p, n, cont, m, per in ds]
         periodic = [i for i, d in enumerate(ds) if d[4]]
+        # ---------------- specification side (python ints)
+        spec_m = [py_resolve_mults(p, n, cont, m) for p, n, cont, m, per in ds]
+        spec_ok = all(m is not None for m in spec_m) and all(not (per and m[0] != m[n]) for (p, n, cont, _, per), m in zip(ds, spec_m) if m)
+        oracle = [py_dim_oracle(p, n, m, per) for (p, n, cont, _, per), m in zip(ds, spec_m)] if spec_ok else None
         # knot values: random increasing dyadic values, or None (uniform)
         kvs = []
         for p, n, cont, m, per in ds:
@@ -301,10 +321,10 @@ def stream_spline(c, mesh, function, poly, N):
                     acc += Fraction(c.rng.choice([1, 2, 3, 4, 6]), 4); kv.append(acc)
                 kvs.append(kv)
         removedofs = None
-        if f[0] == 'ok' and c.rng.random() < .3:
+        if spec_ok and c.rng.random() < .3:
             removedofs = []
-            for i, d in enumerate(f[3].split(';')):
-                ndi = int(d.split(',')[2])
+            for o in oracle:
+                ndi = o[1]
                 removedofs.append(sorted(set(c.rng.choice([0, -1, ndi-1, c.rng.randrange(ndi)]) for _ in range(c.rng.randint(0, 2)))) or None)
             if not any(removedofs): removedofs = None
         replay.update(knotvalues=[[str(k) for k in kv] for kv in kvs], removedofs=removedofs)
@@ -320,27 +340,22 @@ def stream_spline(c, mesh, function, poly, N):
         except (ValueError, IndexError) as e:
             basis = None; real_err = type(e).__name__
         c.case(('spline', repr(ds), removedofs is not None), nontrivial=basis is not None)
-        # ---------------- specification side
-        spec_m = [py_resolve_mults(p, n, cont, m) for p, n, cont, m, per in ds]
-        spec_ok = all(m is not None for m in spec_m) and all(not (per and m[0] != m[n]) for (p, n, cont, _, per), m in zip(ds, spec_m) if m)
         if basis is None:
             c.count('spline-real:rejected')
             if spec_ok:
                 c.failing_input('basis_spline-rejects-valid', 'basis_spline raises %s for an admissible degree/continuity/multiplicity/periodic combination' % real_err, replay); ndis += 1
-            elif f[0] != 'err':
-                ndis += 1; c.broken_no_input('corr:basis_spline', 'model accepts a request the implementation rejects', replay)
+            else:
+                records.append((ds, replay, ('rejected',)))
             continue
         c.count('spline-real:accepted')
         if not spec_ok:
             # the implementation accepted something the documented preconditions exclude: not a property violation by itself
             # (asserts are the only guard); the model must agree though
-            if f[0] != 'ok':
-                ndis += 1; c.broken_no_input('corr:basis_spline', 'implementation accepts a request the model rejects', replay)
+            records.append((ds, replay, ('accepted-unspecified',)))
             continue
         parent = basis._parent if removedofs else basis
         indices = canon(basis._indices) if removedofs else None
         dofs, supp = real_basis_tables(parent)
-        oracle = [py_dim_oracle(p, n, m, per) for (p, n, cont, _, per), m in zip(ds, spec_m)]
         ndofs_want = functools.reduce(lambda x, y: x*y, [o[1] for o in oracle], 1)
         bad = None
         if parent.ndofs != ndofs_want: bad = ('ndofs', 'number of dofs %d differs from the B-spline space dimension %d' % (parent.ndofs, ndofs_want))
@@ -362,6 +377,12 @@ def stream_spline(c, mesh, function, poly, N):
             bad = numeric_basis_checks(c, poly, topo, basis, pou=removedofs is None, tag='spline')
         if not bad and removedofs is None:
             bad = spline_continuity_violation(ds, spec_m, oracle, kvs, parent, shape)
+        if not bad and removedofs:
+            mdofs, msupp = real_basis_tables(basis)
+            why = inverse_violation(mdofs, msupp, basis.ndofs)
+            want_idx = masked_indices_oracle(removedofs, [o[1] for o in oracle])
+            if why: bad = ('removedofs-inverse', 'with removedofs: get_support is not the inverse of get_dofs: ' + why)
+            elif indices != want_idx: bad = ('removedofs-indices', 'with removedofs %s the kept dofs are %s, expected %s' % (removedofs, indices, want_idx))
         if bad:
             ndis += 1
             c.failing_input('basis_spline:' + bad[0], 'structured spline basis: ' + bad[1], replay); continue
@@ -373,33 +394,39 @@ def stream_spline(c, mesh, function, poly, N):
             pts = rand_local_points(c.rng, len(ds), 2)
             Ts = [knot_vector(d[0], d[1], m, kv, o[2]) for d, m, kv, o in zip(ds, spec_m, kvs, oracle)]
             bs_requests.append((ds, oracle, kvs, topo, basis, e, mi, pts, Ts, replay))
-        # ---------------- correspondence with the model
-        if f[0] != 'ok':
-            ndis += 1; c.broken_no_input('corr:basis_spline', 'model rejects a request the implementation accepts', replay); continue
-        m_nd, m_ne = int(f[1]), int(f[2])
-        m_per = f[3].split(';')
-        real_per = ';'.join('%s,%s,%d' % (ints(s), ints(t), nd_) for s, t, nd_ in zip(parent._start_dofs, parent._stop_dofs, parent._dofs_shape))
-        if (m_nd, m_ne) != (parent.ndofs, parent.nelems) or f[3] != real_per or parse_rows(f[4], m_ne) != dofs or parse_rows(f[5], m_nd) != supp:
-            ndis += 1; c.broken_no_input('corr:basis_spline', 'model and implementation disagree on start/stop/ndofs, get_dofs or get_support', dict(replay, real=dict(per_dim=real_per, dofs=dofs, supp=supp)))
-            continue
+        real_per = ';'.join('%s,%s,%d' % (ints(s_), ints(t_), nd_) for s_, t_, nd_ in zip(parent._start_dofs, parent._stop_dofs, parent._dofs_shape))
+        records.append((ds, replay, ('ok', parent.ndofs, parent.nelems, real_per, dofs, supp)))
         if removedofs:
-            pending_masked.append((basis, parent, dofs, indices, removedofs, oracle, replay))
-    mlines = ['masked|%d|%s|%s' % (parent.ndofs, rows(dofs), ints(indices)) for basis, parent, dofs, indices, removedofs, oracle, replay in pending_masked]
-    for (basis, parent, dofs, indices, removedofs, oracle, replay), mans in zip(pending_masked, c.model(mlines)):
-            mans = mans.split('|')
-            mdofs, msupp = real_basis_tables(basis)
-            sel_ok = True
-            for e, sel in enumerate(parse_rows(mans[3], parent.nelems) if mans[0] == 'ok' else []):
-                if not numpy.array_equal(basis.get_coefficients(e), parent.get_coefficients(e)[sel]): sel_ok = False
-            why = inverse_violation(mdofs, msupp, basis.ndofs)
-            want_idx = masked_indices_oracle(removedofs, [o[1] for o in oracle])
-            if why or indices != want_idx:
-                ndis += 1; c.failing_input('removedofs:' + ('inverse' if why else 'indices'), 'spline basis with removedofs: ' + (why or 'kept dofs %s, expected %s' % (indices, want_idx)), replay); continue
-            if mans[0] != 'ok' or int(mans[1]) != basis.ndofs or parse_rows(mans[2], basis.nelems) != mdofs or parse_rows(mans[4], basis.ndofs) != msupp or not sel_ok:
-                ndis += 1; c.broken_no_input('corr:MaskedBasis', 'model and implementation disagree on masked dofs / coefficient rows / support', dict(replay, real=dict(dofs=mdofs, supp=msupp)))
+            pending_masked.append((basis, parent, dofs, indices, mdofs, msupp, replay))
             c.count('spline:removedofs')
-    c.obligation('corr:basis_spline+StructuredBasis', ndis == 0, 'correspondence', '%d requests' % len(cases))
-    stream_bspline_values(c, bs_requests)
+    # ---------------- correspondence with the model (one batch)
+    lines1 = ['sbasis|' + ';'.join(dim_str(d) for d in ds) for ds, replay, exp in records]
+    lines2 = ['masked|%d|%s|%s' % (parent.ndofs, rows(dofs), ints(indices)) for basis, parent, dofs, indices, mdofs, msupp, replay in pending_masked]
+    lines3, index3 = bspline_value_lines(bs_requests)
+    ans = yield lines1 + lines2 + lines3
+    for (ds, replay, exp), a in zip(records, ans[:len(lines1)]):
+        f = a.split('|'); replay = dict(replay, model=a[:3000])
+        if exp[0] == 'hang':
+            ok = a == 'err|hang'
+        elif exp[0] == 'rejected':
+            ok = f[0] == 'err' and f[1] != 'hang'
+        elif exp[0] == 'accepted-unspecified':
+            ok = f[0] == 'ok'
+        else:
+            _, ndofs, nelems, real_per, dofs, supp = exp
+            ok = f[0] == 'ok' and (int(f[1]), int(f[2])) == (ndofs, nelems) and f[3] == real_per and parse_rows(f[4]) == dofs and parse_rows(f[5]) == supp
+            if not ok: replay.update(real=dict(per_dim=real_per, dofs=dofs, supp=supp))
+        if not ok:
+            ndis += 1; c.broken_no_input('corr:basis_spline', 'model and implementation disagree (%s): accept/reject, start/stop/ndofs, get_dofs or get_support' % exp[0], replay)
+    for (basis, parent, dofs, indices, mdofs, msupp, replay), mans in zip(pending_masked, ans[len(lines1):len(lines1)+len(lines2)]):
+        f = mans.split('|')
+        ok = f[0] == 'ok' and int(f[1]) == basis.ndofs and parse_rows(f[2]) == mdofs and parse_rows(f[4]) == msupp
+        for e, sel in enumerate(parse_rows(f[3]) if ok else []):
+            if not numpy.array_equal(basis.get_coefficients(e), parent.get_coefficients(e)[sel]): ok = False
+        if not ok:
+            ndis += 1; c.broken_no_input('corr:MaskedBasis', 'model and implementation disagree on masked dofs / coefficient rows / support', dict(replay, model=mans[:3000], real=dict(dofs=mdofs, supp=msupp)))
+    c.obligation('corr:basis_spline+StructuredBasis', ndis == 0, 'correspondence', '%d requests (%d with removedofs)' % (len(cases), len(pending_masked)))
+    bspline_value_finish(c, bs_requests, index3, ans[len(lines1)+len(lines2):])
 
 
 def masked_indices_oracle(removedofs, dofshape):
@@ -480,8 +507,8 @@ def numeric_basis_checks(c, poly, topo, basis, pou, tag, npts=2):
     return None
 
 
-def stream_bspline_values(c, reqs):
-    """(V) real spline values at dyadic points versus Cox-de Boor over Q evaluated by the Lean model"""
+def bspline_value_lines(reqs):
+    """(V) requests: Cox-de Boor over Q (Lean) for every 1-D factor at the chosen dyadic points"""
     lines = []; index = []
     for k, (ds, oracle, kvs, topo, basis, e, mi, pts, Ts, replay) in enumerate(reqs):
         for ip, pt in enumerate(pts):
@@ -489,7 +516,11 @@ def stream_bspline_values(c, reqs):
                 x = kv[mi[idim]] + pt[idim]*(kv[mi[idim]+1]-kv[mi[idim]])
                 lines.append('bspline|%d|%s|%s' % (d[0], ' '.join(frac_str(t) for t in T), frac_str(x)))
                 index.append((k, ip, idim))
-    ans = c.model(lines)
+    return lines, index
+
+
+def bspline_value_finish(c, reqs, index, ans):
+    """(V) real spline values at dyadic points versus Cox-de Boor over Q evaluated by the Lean model"""
     vals = {}
     for (k, ip, idim), a in zip(index, ans):
         if not a.startswith('ok|'): raise Infra('bspline request refused: ' + a)
@@ -516,7 +547,114 @@ def stream_bspline_values(c, reqs):
                 c.failing_input('basis_spline:values', 'spline basis values deviate %.3g from the Cox-de Boor B-splines of the requested knot vector' % err, dict(replay, element=e, point=[str(x) for x in pts[ip]]))
                 break
         c.case(('bspline-values', k), nontrivial=True)
-    c.obligation('values:spline-vs-CoxDeBoor(Q)', ndis == 0, 'validation', '%d (basis, element) pairs, %d exact evaluations' % (len(reqs), len(lines)))
+    c.obligation('values:spline-vs-CoxDeBoor(Q)', ndis == 0, 'validation', '%d (basis, element) pairs, %d exact evaluations' % (len(reqs), len(index)))
+
+
+# ================================================================================================ _basis_spline (explicit dof lists, used by multipatch)
+
+def stream_vs(c, mesh, poly, N):
+    """`StructuredTopology._basis_spline` on non-periodic topologies: dof lists per element and dof counts versus the model
+    (`vsDim`), versus B-spline theory (python ints) and, in 1-D, coefficient rows versus Cox-de Boor over Q (Lean)."""
+    cases = [[(2, 3, -1, None)], [(2, 3, -1, [1, 1, 2, 1])], [(3, 2, -1, [1, 1, 1])], [(1, 2, -1, None), (2, 2, 0, None)], [(0, 3, -1, None)], [(2, 2, -1, [3, 3, 3])]]
+    for _ in range(N):
+        nd = c.rng.choice([1, 1, 2])
+        ds = []
+        for _ in range(nd):
+            tag, (p, n, cont, m, per) = gen_dim(c.rng, maxn=4, maxp=4 if nd == 1 else 3, allow_bad=c.rng.random() < .3)
+            ds.append((p, n, cont, m))
+        cases.append(ds)
+    ndis = 0; vlines = []; vmeta = []; records = []
+    for k, ds in enumerate(cases):
+        replay = dict(op='_basis_spline', dims=[dict(degree=p, nelems=n, continuity=cont, knotmultiplicities=m) for p, n, cont, m in ds])
+        if first_event(ds) == 'hang':
+            c.count('vs:hang-not-run'); records.append((ds, replay, ('hang',))); continue
+        spec_m = [py_resolve_mults(p, n, cont, m) for p, n, cont, m in ds]
+        spec_ok = all(m is not None for m in spec_m)
+        if spec_ok:
+            spec_m = [([p+1] + m[1:-1] + [p+1]) if mo is None else m for (p, n, cont, mo), m in zip(ds, spec_m)]
+            spec_ok = all(sum(m) - p - 1 > 0 for (p, n, cont, mo), m in zip(ds, spec_m))
+        topo, geom = mesh.rectilinear([n for p, n, cont, m in ds])
+        try:
+            coeffs, dofmap, dofshape = topo._basis_spline([p for p, n, cont, m in ds], knotmultiplicities=[m for p, n, cont, m in ds], continuity=[cont for p, n, cont, m in ds])
+            real_err = None
+        except (AssertionError, ValueError, IndexError) as e:
+            real_err = type(e).__name__
+        c.case(('vs', repr(ds)), nontrivial=real_err is None); c.count('vs:' + ('accepted' if real_err is None else 'rejected'))
+        if real_err:
+            if spec_ok:
+                ndis += 1; c.failing_input('_basis_spline-rejects-valid', '_basis_spline raises %s for admissible parameters' % real_err, replay)
+            else:
+                records.append((ds, replay, ('rejected',)))
+            continue
+        if not spec_ok:
+            records.append((ds, replay, ('accepted-unspecified',)))
+            continue
+        # ---- B-spline theory: functions N_j on the knot vector with multiplicities m; element e sees j in [mu_e - p, mu_e] clipped
+        nds = [sum(m) - p - 1 for (p, n, cont, mo), m in zip(ds, spec_m)]
+        per_dim = []
+        for (p, n, cont, mo), m, nd_ in zip(ds, spec_m, nds):
+            sl = []
+            for e in range(n):
+                mu = sum(m[:e+1]) - 1
+                sl.append(list(range(max(0, mu-p), min(nd_-1, mu)+1)))
+            per_dim.append(sl)
+        want = [[functools.reduce(lambda acc, x: acc*x[1] + x[0], zip(t, nds), 0) for t in itertools.product(*[per_dim[i][ei] for i, ei in enumerate(mi)])]
+                for mi in itertools.product(*[range(n) for p, n, cont, m in ds])]
+        got = [canon(d) for d in dofmap]
+        bad = None
+        if [int(x) for x in dofshape] != nds: bad = ('dofshape', 'dof counts %s, B-spline space dimensions %s' % ([int(x) for x in dofshape], nds))
+        elif got != want: bad = ('dofmap', 'dof lists %s, B-splines supported per element %s' % (got, want))
+        elif any(len(cf) != len(d) for cf, d in zip(coeffs, got)): bad = ('coeff-shape', 'coefficient rows do not match the dof lists')
+        if bad:
+            ndis += 1; c.failing_input('_basis_spline:' + bad[0], '_basis_spline: ' + bad[1], replay); continue
+        c.traces += 1
+        records.append((ds, replay, ('ok', nds, got)))
+        if len(ds) == 1 and len(vmeta) < (40 if c.tier == 'quick' else 400):
+            p, n = ds[0][0], ds[0][1]; m = spec_m[0]
+            T = [Fraction(i) for i in range(n+1) for _ in range(m[i])]
+            e = c.rng.randrange(n); x = Fraction(c.rng.randint(1, 15), 16)
+            vlines.append('bspline|%d|%s|%s' % (p, ' '.join(frac_str(t) for t in T), frac_str(e + x))); vmeta.append((coeffs[e], got[e], nds[0], x, replay))
+    lines = []; index = []
+    for k, (ds, replay, exp) in enumerate(records):
+        for p, n, cont, m in ds:
+            lines.append('vs|%d|%d|%d|%s' % (p, n, cont, '-' if m is None else ints(m))); index.append(k)
+    ans = yield lines + vlines
+    per_case = {}
+    for k, a in zip(index, ans[:len(lines)]): per_case.setdefault(k, []).append(a)
+    for k, (ds, replay, exp) in enumerate(records):
+        model = per_case[k]; replay = dict(replay, model=model)
+        if exp[0] == 'hang':
+            ok = any(a == 'err|hang' for a in model)
+        elif exp[0] == 'rejected':
+            ok = any(a.startswith('err') for a in model) and not any(a == 'err|hang' for a in model)
+        elif exp[0] == 'accepted-unspecified':
+            ok = all(a.startswith('ok') for a in model)
+        else:
+            _, nds, got = exp
+            ok = all(a.startswith('ok') for a in model)
+            if ok:
+                mnds = [int(a.split('|')[1]) for a in model]
+                msl = [[list(range(ab[0], ab[1])) for ab in parse_rows(a.split('|')[2])] for a in model]
+                mwant = [[functools.reduce(lambda acc, x: acc*x[1] + x[0], zip(t, mnds), 0) for t in itertools.product(*[msl[i][ei] for i, ei in enumerate(mi)])]
+                         for mi in itertools.product(*[range(n) for p, n, cont, m in ds])]
+                ok = mnds == nds and mwant == got
+            if not ok: replay.update(real=dict(dofshape=nds, dofmap=got))
+        if not ok:
+            ndis += 1; c.broken_no_input('corr:_basis_spline', 'model and implementation disagree (%s): accept/reject, dof slices or counts' % exp[0], replay)
+    nv = 0
+    for (co, dofs, nd_, x, replay), a in zip(vmeta, ans[len(lines):]):
+        if not a.startswith('ok|'):
+            if a == 'bad-request': continue     # knot vector shorter than p+2: no function at all
+            raise Infra('bspline request refused: ' + a)
+        q = parse_fracs(a[3:])
+        want = numpy.array([float(q[d]) if d < len(q) else 0. for d in dofs])
+        gotv = numpy.array([polyval_desc([float(t) for t in row], float(x)) for row in numpy.asarray(co)])
+        nz = [j for j, v in enumerate(q) if v != 0 and j not in dofs]
+        err = float(abs(want-gotv).max()) if len(dofs) else 0.
+        nv += 1
+        if err >= TOL or nz:
+            ndis += 1; c.failing_input('_basis_spline:values', '_basis_spline coefficient rows deviate %.3g from the Cox-de Boor B-splines (non-zero functions not listed: %s)' % (err, nz), dict(replay, x=str(x)))
+    c.obligation('corr:_basis_spline (dof slices, counts, coefficient rows)', ndis == 0, 'correspondence', '%d requests, %d value comparisons' % (len(cases), nv))
 
 
 # ================================================================================================ the basis zoo
@@ -575,8 +713,10 @@ def zoo(c, mods):
                 single_per = any(shape[i] == 1 for i in periodic)
                 cont = {'std': 0, 'bernstein': 0, 'lagrange': 0, 'spline': p-1, 'discont': -1, 'legendre': -1}[btype]
                 if single_per and cont > 0: cont = 0            # a single periodic element only closes C^0 (as the repo's tests note)
-                return Entry('%s%dd' % (btype, nd), topo, geom, basis, btype != 'legendre', cont, None if periodic else p,
-                             dict(shape=shape, periodic=periodic, btype=btype, degree=p))
+                e = Entry('%s%dd' % (btype, nd), topo, geom, basis, btype != 'legendre', cont, None if periodic else p,
+                          dict(shape=shape, periodic=periodic, btype=btype, degree=p))
+                e.single_per = single_per
+                return e
             add('structured-%s-%dd' % (btype, nd), thunk)
 
     # ---- unstructured 2-D: triangles / mixed, 3-D: tets
@@ -645,19 +785,22 @@ def zoo(c, mods):
         return Entry('trimmed-' + btype, tr, geom, basis, True, None, p, dict(shape=shape, cut=cut, btype=btype, degree=p))
     add('pruned-trimmed', thunk)
     def thunk():
-        topo, geom, shape, periodic = structured(2, False)
-        if len(topo) < 2: topo, geom = mesh.rectilinear([2, 2])
-        k = rng.randint(1, len(topo)-1)
-        sub = topo - topo[:k] if rng.random() < .5 else topo - topo[len(topo)-k:]
+        topo, geom, shape, periodic = structured(rng.choice([1, 2]), rng.random() < .3)
+        if len(topo) < 2: topo, geom = mesh.rectilinear([2, 2]); periodic = []; shape = [2, 2]
+        keep = [rng.random() < .5 for _ in range(len(topo))]
+        if not any(keep): keep[rng.randrange(len(keep))] = True
+        sub = topology.SubsetTopology(topo, [r if k else r.empty for r, k in zip(topo.references, keep)])
         btype = rng.choice(['std', 'spline', 'discont']); p = rng.randint(1, 3)
-        return Entry('subset-' + btype, sub, geom, sub.basis(btype, degree=p), True, -1 if btype == 'discont' else 0 if btype == 'std' else p-1, p, dict(btype=btype, degree=p, removed=k))
+        return Entry('subset-' + btype, sub, geom, sub.basis(btype, degree=p), True, -1 if btype == 'discont' else 0 if btype == 'std' or periodic else p-1,
+                     None if periodic else p, dict(shape=shape, periodic=periodic, btype=btype, degree=p, keep=keep))
     add('pruned-subset', thunk)
     def thunk():
-        topo, geom = mesh.unitsquare(2, 'triangle')
-        k = rng.randint(1, 4)
-        sub = topo - topo[:k]
+        topo, geom = mesh.unitsquare(2, rng.choice(['triangle', 'mixed']))
+        keep = [rng.random() < .6 for _ in range(len(topo))]
+        if not any(keep): keep[0] = True
+        sub = topology.SubsetTopology(topo, [r if k else r.empty for r, k in zip(topo.references, keep)])
         p = rng.randint(1, 3)
-        return Entry('subset-tri-std', sub, geom, sub.basis('std', degree=p), True, 0, p, dict(degree=p, removed=k))
+        return Entry('subset-tri-std', sub, geom, sub.basis('std', degree=p), True, 0, p, dict(degree=p, keep=keep))
     add('pruned-subset-triangles', thunk)
     def thunk():
         topo, geom = mesh.rectilinear([3, 2])
@@ -718,11 +861,13 @@ def zoo(c, mods):
         topo = A*B
         btype = rng.choice(['std', 'spline', 'discont']); p = [rng.randint(0 if btype != 'std' else 1, 3) for _ in range(2)]
         if na is None and btype != 'discont': btype = rng.choice(['h-std', 'th-std', 'th-spline']); p = [max(1, q) for q in p]
-        basis = topo.basis(btype, degree=p)
+        if btype == 'discont': p = [p[0], p[0]]       # basis_discont only takes an int degree
+        basis = topo.basis(btype, degree=p[0] if btype == 'discont' else p)
         fa = A.basis(btype, degree=p[0]); fb = B.basis(btype, degree=p[1])
         cont = -1 if btype == 'discont' else None
         e = Entry('product-' + btype, topo, numpy.stack([ga, gb]), basis, not btype.startswith('h-'), cont, None, dict(na=na, nb=nb, periodicA=pa, btype=btype, degree=p))
         e.factors = (A, B, fa, fb)
+        e.single_per = pa and len(A) == 1
         return e
     add('product', thunk)
     return out
@@ -737,14 +882,18 @@ def union_violation(c, basis, dofs, supp):
         got = canon(basis.get_dofs(numpy.array(sel, dtype=int)))
         mask = numpy.zeros(basis.nelems, dtype=bool); mask[sel] = True
         got2 = canon(basis.get_dofs(mask))
-        if got != want or got2 != want: return 'get_dofs(%s) = %s / %s, union of the per-element lists is %s' % (sel, got, got2, want)
+        if got != want or got2 != want:
+            known = len(sel) == 1 and sorted(set(got)) == want and sorted(set(got2)) == want
+            return (KNOWN_SINGLE if known else 'union', 'get_dofs(%s) = %s / %s, the sorted union of the per-element lists is %s' % (sel, got, got2, want))
     if basis.ndofs:
         sel = sorted(set(rng.randrange(basis.ndofs) for _ in range(rng.randint(1, 3))))
         want = sorted(set(e for d in sel for e in supp[d]))
         got = canon(basis.get_support(numpy.array(sel, dtype=int)))
         mask = numpy.zeros(basis.ndofs, dtype=bool); mask[sel] = True
         got2 = canon(basis.get_support(mask))
-        if got != want or got2 != want: return 'get_support(%s) = %s / %s, union of the per-dof lists is %s' % (sel, got, got2, want)
+        if got != want or got2 != want:
+            known = len(sel) == 1 and sorted(set(got)) == want and sorted(set(got2)) == want
+            return (KNOWN_SINGLE if known else 'union', 'get_support(%s) = %s / %s, the sorted union of the per-dof lists is %s' % (sel, got, got2, want))
     return None
 
 
@@ -760,7 +909,8 @@ def continuity_violation(c, function, e):
     if e.cont < 0:
         J = smpl.eval(function.jump(f))
         # every interface point sees some function jump
-        if J.size and abs(J).max(axis=tuple(range(1, J.ndim))).min() < 1e-6:
+        # (a single periodic element is its own neighbour: its functions may legitimately close up)
+        if J.size and not getattr(e, 'single_per', False) and abs(J).max(axis=tuple(range(1, J.ndim))).min() < 1e-6:
             return ('forced-continuous', 'a discontinuous basis has no jump at some interface point')
         return None
     for order in range(e.cont+1):
@@ -816,13 +966,19 @@ def stream_zoo(c, mods, poly, rounds):
                 b = e.basis
                 c.count('zoo-class:' + type(b).__name__)
                 if b.nelems != len(e.topo): bad = ('nelems', 'basis.nelems %d != len(topo) %d' % (b.nelems, len(e.topo)))
+                if not bad and isinstance(b, function.PrunedBasis) and canon(b._dofmap) != sorted(set(canon(b._dofmap))):
+                    # root cause: parent.get_dofs(array of one element) is returned unsorted / with duplicates
+                    c.failing_input(KNOWN_SINGLE, 'PrunedBasis._dofmap %s is not unique and increasing (parent.get_dofs of a single-element array)' % canon(b._dofmap), replay)
+                    c.count('zoo:skipped-after-known-finding'); ndis += not c.match_known(KNOWN_SINGLE); continue
                 if not bad:
                     dofs, supp = real_basis_tables(b)
                     why = inverse_violation(dofs, supp, b.ndofs)
                     if why: bad = ('inverse', 'get_support is not the inverse of get_dofs: ' + why)
                 if not bad:
                     why = union_violation(c, b, dofs, supp)
-                    if why: bad = ('union', why)
+                    if why and why[0] == KNOWN_SINGLE:
+                        c.failing_input(KNOWN_SINGLE, '%s: %s' % (name, why[1]), replay); ndis += not c.match_known(KNOWN_SINGLE)
+                    elif why: bad = why
                 if not bad:
                     bad = numeric_basis_checks(c, poly, e.topo, b, pou=e.pou, tag='convex')
                 if not bad:
@@ -838,7 +994,7 @@ def stream_zoo(c, mods, poly, rounds):
             else:
                 c.traces += 1
     c.obligation('oracle:basis-zoo (eval=coefficients, inverse maps, union forms, partition of unity, continuity, polynomial reproduction)', ndis == 0, 'exploration', '%d bases' % nexp)
-    stream_generic_models(c, function, pending)
+    yield from stream_generic_models(c, function, pending)
 
 
 def product_violation(c, e):
@@ -876,7 +1032,7 @@ def stream_generic_models(c, function, pending):
         elif isinstance(b, function.PrunedBasis):
             pd, ps = real_basis_tables(b._parent)
             lines.append('pruned|%d|%s|%s' % (b._parent.ndofs, rows(pd), ints(b._transmap))); meta.append(('pruned', e, b, dofs, supp, replay, pd))
-    ans = c.model(lines)
+    ans = yield lines
     ndis = {}
     for (kind, e, b, dofs, supp, replay, pd), a in zip(meta, ans):
         f = a.split('|'); ok = f[0] == 'ok'
@@ -906,7 +1062,129 @@ def stream_generic_models(c, function, pending):
         c.obligation('corr:' + clsname, ndis.get(kind, 0) == 0 and n > 0, 'correspondence', '%d real bases' % n)
 
 
+# ================================================================================================ (X) generated tables, Bernstein values
+
+def bernstein_tables(element):
+    """coefficient tables of the real `get_poly_coeffs('bernstein')` for simplices (dims 1-3) and tensor cells"""
+    tabs = []
+    line = element.getsimplex(1)
+    refs = [('simplex%d' % d, element.getsimplex(d), range(0, 5 if d < 3 else 4)) for d in (1, 2, 3)] + [('square', line**2, range(0, 4)), ('cube', line**3, range(0, 3))]
+    for name, ref, degs in refs:
+        for deg in degs:
+            tabs.append((name, deg, numpy.asarray(ref.get_poly_coeffs('bernstein', degree=deg), dtype=float)))
+    return tabs
+
+
+def generated_text(tabs):
+    out = ['/-! GENERATED by harness/nvh/c12.py from /repo (`Reference.get_poly_coeffs("bernstein", degree)`): do not edit. -/',
+           'namespace NutilsVerif.C12.Generated', '',
+           '/-- (reference, degree, coefficient rows in nutils_poly layout) -/',
+           'def bernsteinTables : List (String × Nat × List (List Int)) := [']
+    items = []
+    for name, deg, co in tabs:
+        rows_ = ', '.join('[' + ', '.join(str(int(x)) for x in r) + ']' for r in co)
+        items.append('  ("%s", %d, [%s])' % (name, deg, rows_))
+    out.append(',\n'.join(items))
+    out += [']', '', 'end NutilsVerif.C12.Generated', '']
+    return '\n'.join(out)
+
+
+def write_generated(c, element):
+    tabs = bernstein_tables(element)
+    ok_int = all(float(x).is_integer() for _, _, co in tabs for x in co.ravel())
+    bad = []
+    for name, deg, co in tabs:
+        sums = co.sum(0)
+        if abs(sums[-1]-1) >= TOL or (len(sums) > 1 and abs(sums[:-1]).max() >= TOL):
+            bad.append((name, deg))
+    for name, deg in bad:
+        c.failing_input('bernstein-table:pou', 'the Bernstein coefficient table of %s degree %d does not sum to the constant 1' % (name, deg), dict(op='get_poly_coeffs', reference=name, degree=deg))
+    if ok_int:
+        c.write_generated('C12.lean', generated_text(tabs))
+    else:
+        c.count('generated:non-integer-table')
+    c.extra['generated_tables'] = len(tabs)
+    return ok_int and not bad
+
+
+def stream_bernstein(c, element):
+    """(V) exact: rows of the real 1-D Bernstein coefficient table evaluated at dyadic points in Q equal C(n,i) x^i (1-x)^(n-i)
+    computed by the Lean model (about which `bernstein_pou` is proved)"""
+    line = element.getsimplex(1)
+    lines = []; meta = []
+    for n in range(0, 9):
+        co = numpy.asarray(line.get_poly_coeffs('bernstein', degree=n))
+        for x in sorted(set(Fraction(c.rng.randint(0, 16), 16) for _ in range(3))):
+            lines.append('bernstein|%d|%s' % (n, frac_str(x))); meta.append((n, x, co))
+    ans = yield lines
+    ndis = 0
+    for (n, x, co), a in zip(meta, ans):
+        want = parse_fracs(a[3:])
+        got = [polyval_desc([Fraction(float(t)) for t in row], x) for row in co]
+        c.case(('bernstein', n, x), nontrivial=n > 0)
+        if got != want:
+            ndis += 1
+            c.failing_input('bernstein-table:values', 'Bernstein coefficient table of degree %d does not describe C(n,i) x^i (1-x)^(n-i) at x=%s' % (n, x), dict(op='get_poly_coeffs', degree=n, x=str(x), got=[str(g) for g in got], want=[str(w) for w in want]))
+    c.obligation('values:bernstein-table-vs-model(Q)', ndis == 0, 'validation', '%d exact evaluations' % len(lines))
+
+
+def known_defect_regressions(c, mesh):
+    """corpus: the two inputs of the finding `int_or_vec:single-element-array-not-unique` (fixed by a fix: commit)"""
+    topo, geom = mesh.rectilinear([2], periodic=[0])
+    b = topo.basis('spline', degree=3)
+    got = canon(b.get_dofs(numpy.array([1])))
+    if got != [0, 1]:
+        c.failing_input(KNOWN_SINGLE, 'get_dofs(array([1])) = %s, documented: the unique increasing array [0, 1]' % got, dict(op='get_dofs-array', mesh='rectilinear([2], periodic=[0])', degree=3, ielem=[1]))
+    sub = topo - topo[:1]
+    pb = sub.basis('spline', degree=3)
+    dofs, supp = real_basis_tables(pb)
+    why = inverse_violation(dofs, supp, pb.ndofs)
+    if why:
+        c.failing_input(KNOWN_SINGLE, 'PrunedBasis on a one-element subset of a periodic topology: ' + why, dict(op='pruned-single-element', mesh='rectilinear([2], periodic=[0]) - [:1]', degree=3))
+    c.case(('corpus', 'single-element-array'), nontrivial=True)
+    c.obligation('corpus:single-element-array-forms', got == [0, 1] and not why, 'exploration')
+
+
 # ================================================================================================ entry point
+
+def run_streams(c, gens):
+    """streams are generators that yield lists of model request lines and receive the answers; all streams are advanced in
+    lockstep so that one Lean driver process serves one round of every stream"""
+    live = []
+    for name, g in gens:
+        try:
+            live.append((name, g, next(g)))
+            c.log('stream %s: real-code phase done' % name)
+        except StopIteration:
+            pass
+    while live:
+        lines = [l for _, _, ls in live for l in ls]
+        ans = c.model(lines)
+        c.log('model answered %d requests' % len(lines))
+        nxt = []; pos = 0
+        for name, g, ls in live:
+            mine = ans[pos:pos+len(ls)]; pos += len(ls)
+            try:
+                nxt.append((name, g, g.send(mine)))
+            except StopIteration:
+                pass
+        live = nxt
+
+
+@contextlib.contextmanager
+def capture_merge(util, captured):
+    orig = util.merge_index_map
+    def wrapper(nin, merge_sets, condense=True):
+        sets = [[int(i) for i in s] for s in merge_sets]
+        if condense and len(captured) < 400 and int(nin) <= 400:
+            captured.append((int(nin), sets))
+        return orig(nin, sets, condense)
+    util.merge_index_map = wrapper
+    try:
+        yield
+    finally:
+        util.merge_index_map = orig
+
 
 def run(c):
     from nutils import mesh, function, topology, element, transformseq
@@ -919,16 +1197,32 @@ def run(c):
     c.assumptions += ['numeric streams compare floats with tolerance: deviation >= 1e-8 is a failing input (expected level 1e-12)',
                       'nutils_poly (third-party, not anchored) is trusted to evaluate coefficient tables',
                       'the while-loop of basis_spline that never terminates for a length-1 multiplicity vector is not executed (model answers "hang")']
+    import warnings as _w
+    _w.filterwarnings('ignore')
+    gen_ok = write_generated(c, element)
     broken = c.build_and_audit()
-    quick = c.tier == 'quick'
-    captured = []
     c.log('proofs built and audited')
-    stream_merge(c, util, 300 if quick else 10000, captured)
-    c.log('merge stream done')
-    stream_spline(c, mesh, function, poly, 80 if quick else 3000)
-    c.log('spline stream done')
+    if not gen_ok and not c.violations:
+        broken.append('generated Bernstein tables are not integer valued: bernstein_table_pou no longer speaks about the real tables')
+    known_defect_regressions(c, mesh)
+    quick = c.tier == 'quick'
     mods = (mesh, function, topology, element, transformseq)
-    stream_zoo(c, mods, poly, 2 if quick else 40)
-    c.log('zoo stream done')
+    captured = []
+
+    def zoo_stream():
+        with capture_merge(util, captured):
+            g = stream_zoo(c, mods, poly, 2 if quick else 40)
+            first = next(g)
+        ans = yield first
+        try:
+            g.send(ans)
+        except StopIteration:
+            pass
+
+    run_streams(c, [('zoo', zoo_stream()),
+                    ('spline', stream_spline(c, mesh, function, poly, 80 if quick else 3000)),
+                    ('_basis_spline', stream_vs(c, mesh, poly, 60 if quick else 2000)),
+                    ('bernstein', stream_bernstein(c, element)),
+                    ('merge', stream_merge(c, util, 300 if quick else 10000, captured))])
     for b in broken:
         c.broken_no_input('proof', b, dict(detail=b))
